@@ -55,6 +55,8 @@ pub struct SimThread {
     pub steps: u64,
     /// body returned; thread-local destructors are (or will be) running
     pub exiting: bool,
+    /// parked at (or about to leave) an op boundary: not inside any library call
+    pub at_boundary: bool,
     pub name: &'static str,
 }
 
@@ -150,6 +152,8 @@ pub trait Monitor {
     fn use_after_free(&mut self, _tid: usize, _site: u32, addr: usize) -> (String, String) {
         (String::new(), format!("access to freed address {:#x}", addr))
     }
+    /// Every simulated thread is at an op boundary (none is inside a library call).
+    fn quiescent(&mut self, _tid: usize) {}
 }
 pub struct NoMonitor;
 impl Monitor for NoMonitor {}
@@ -457,6 +461,9 @@ impl Sim {
             }
         }
         self.mon.on_step(me, site);
+        if site == SITE_USER && self.threads.iter().all(|t| t.at_boundary || t.state == TState::Finished || matches!(t.state, TState::Blocked(_))) {
+            self.mon.quiescent(me);
+        }
         if self.seq > self.step_cap {
             self.finish(Outcome::StepCap);
         }
@@ -699,7 +706,9 @@ pub fn user_yield() {
     if me == NONE {
         return;
     }
+    sim().threads[me].at_boundary = true;
     sim().step(me, SITE_USER, 0, 0, 0);
+    sim().threads[me].at_boundary = false;
 }
 
 // ---- running a simulation ----
@@ -712,7 +721,7 @@ pub fn run(cfg: SimConfig, mon: Box<dyn Monitor>, specs: Vec<ThreadSpec>, clock:
     let _ = rng.next();
     let threads = specs
         .iter()
-        .map(|s| SimThread { op_idx: 0, op_step: 0, state: TState::Runnable, phase: s.phase, steps: 0, exiting: false, name: s.name })
+        .map(|s| SimThread { op_idx: 0, op_step: 0, state: TState::Runnable, phase: s.phase, steps: 0, exiting: false, at_boundary: true, name: s.name })
         .collect();
     let s = Box::new(Sim {
         threads,
